@@ -1,5 +1,6 @@
 import Ekit.Props.C01
 import Ekit.Props.C01Rev
+import Ekit.Props.C01Ptr
 open Ekit.RB
 #print axioms c01_rbtree_step_refines
 #print axioms c01_rbtree_run_refines
@@ -34,3 +35,13 @@ open Ekit.RB
 #print axioms c01_spec_map_laws
 #print axioms c01_linked_model_keys_order
 #print axioms c01_linked_reachable_inv
+-- pointer level (Ekit/Props/C01Ptr.lean): the MiniGo interpreter running the translated internal/tree/red_black_tree.go
+#print axioms Ekit.MiniGo.RBHeap.c01_ptr_step_refines
+#print axioms Ekit.MiniGo.RBHeap.c01_ptr_run_refines
+#print axioms Ekit.MiniGo.RBHeap.FunFind.findNode_spec
+#print axioms Ekit.MiniGo.RBHeap.FunFind.find_refines
+#print axioms Ekit.MiniGo.RBHeap.FunFind.set_refines
+#print axioms Ekit.MiniGo.RBHeap.FunAdd.add_refines
+#print axioms Ekit.MiniGo.RBHeap.FunDel.deleteNode_entries
+#print axioms Ekit.MiniGo.RBHeap.FunDel.delete_refines
+#print axioms Ekit.MiniGo.RBHeap.call_noval
